@@ -10,7 +10,7 @@ func init() {
 	// (w, order, off, adj, strip, max, L, frag)
 	for _, c := range [][]int64{
 		{1, 0, 0, 0, 0, 8, 4, 1}, {1, 0, 0, 0, 1, 8, 0, 1}, {2, 1, 0, 0, 2, 8, 5, 1}, {2, 0, 1, -1, 0, 8, 6, 2},
-		{4, 0, 0, 0, 4, 12, 7, 1}, {8, 1, 0, 0, 8, 16, 10, 1}, {1, 0, 1, 2, 3, 6, 5, 1}, {8, 0, 0, -8, 0, 16, 9, 2},
+		{4, 0, 0, 0, 4, 12, 7, 1}, {8, 1, 0, 0, 8, 16, 10, 1}, {8, 0, 0, 4, 0, 24, 9, 1}, {4, 1, 1, 3, 2, 16, 6, 2}, {1, 0, 1, 2, 3, 6, 5, 1}, {8, 0, 0, -8, 0, 16, 9, 2},
 	} {
 		add(&quick, "ZZ_C08_LengthField", b, c...)
 	}
@@ -38,7 +38,7 @@ func init() {
 	add(&thorough, "ZZ_C08_Varint", b, 8, 7, 1)
 	add(&thorough, "ZZ_C08_Varint", b, 2, 5, 2)
 	// (dl, stripD, max, L, frag)
-	for _, c := range [][]int64{{1, 1, 4, 5, 1}, {2, 0, 4, 6, 1}, {2, 1, 3, 3, 2}, {1, 0, 2, 0, 1}} {
+	for _, c := range [][]int64{{1, 1, 4, 5, 1}, {2, 0, 4, 6, 1}, {2, 1, 3, 3, 2}, {1, 0, 2, 0, 1}, {3, 1, 6, 6, 1}} {
 		add(&quick, "ZZ_C08_Delimiter", b, c...)
 	}
 	for _, c := range [][]int64{{1, 1, 8, 7, 1}, {2, 1, 6, 7, 2}, {2, 0, 2, 4, 1}, {1, 0, 1, 3, 1}} {
